@@ -248,12 +248,15 @@ pub struct Cyc {
     pub dt0: bool,
     /// same for every cycle of a case: all programs are bound to tasks (no background program)
     pub tasked: bool,
+    /// bytes written straight into the output image before this cycle (as a queued I/O write, a released force or a
+    /// safe-state application would): the cycle must publish the encoding of the variables again
+    pub poke: Vec<(usize, u8)>,
 }
 
 fn case_json(binds: &[Bind], cycles: &[Cyc]) -> J {
     json!({
         "binds": binds.iter().map(|b| json!([b.area.to_string(), b.sz.letter(), b.byte, b.bit, b.ty, b.in_program])).collect::<Vec<_>>(),
-        "cycles": cycles.iter().map(|c| json!({"in": c.inputs, "a": c.stim_a.iter().map(|x| x.to_string()).collect::<Vec<_>>(), "b": c.stim_b.iter().map(|x| x.to_string()).collect::<Vec<_>>(), "trip": c.trip, "dt0": c.dt0, "tasked": c.tasked})).collect::<Vec<_>>(),
+        "cycles": cycles.iter().map(|c| json!({"in": c.inputs, "a": c.stim_a.iter().map(|x| x.to_string()).collect::<Vec<_>>(), "b": c.stim_b.iter().map(|x| x.to_string()).collect::<Vec<_>>(), "trip": c.trip, "dt0": c.dt0, "tasked": c.tasked, "poke": c.poke.iter().map(|(a, b)| json!([a, b])).collect::<Vec<_>>()})).collect::<Vec<_>>(),
     })
 }
 
@@ -279,6 +282,7 @@ fn parse_case(v: &J) -> (Vec<Bind>, Vec<Cyc>) {
             trip: c["trip"].as_bool().unwrap(),
             dt0: c["dt0"].as_bool().unwrap_or(false),
             tasked: c["tasked"].as_bool().unwrap_or(false),
+            poke: c["poke"].as_array().map(|a| a.iter().map(|p| (p[0].as_u64().unwrap_or(0) as usize % IMG, p[1].as_u64().unwrap_or(0) as u8)).collect()).unwrap_or_default(),
         })
         .collect();
     (binds, cycles)
@@ -295,6 +299,7 @@ fn val_raw(h: &TestHarness, name: &str, ty: &str) -> Result<u64, String> {
 }
 
 struct Stats {
+    pokes: u64,
     cycles: u64,
     seen_checks: u64,
     bits_checked: u64,
@@ -319,7 +324,7 @@ fn run_case(binds: &[Bind], cycles: &[Cyc]) -> Result<Stats, (String, String, us
     h.runtime_mut().io_mut().memory_mut().fill(PATTERN);
     let mut prev_out = vec![PATTERN; IMG];
     let mut prev_mem = vec![PATTERN; IMG];
-    let mut st = Stats { cycles: 0, seen_checks: 0, bits_checked: 0, faulted_cycles: 0, idle_cycles: 0 };
+    let mut st = Stats { cycles: 0, seen_checks: 0, bits_checked: 0, faulted_cycles: 0, idle_cycles: 0, pokes: 0 };
     // value each output-bound variable holds: what the last executed cycle assigned, initially zero
     let mut eff_b: Vec<u64> = vec![0; binds.len()];
     for (ci, c) in cycles.iter().enumerate() {
@@ -340,6 +345,11 @@ fn run_case(binds: &[Bind], cycles: &[Cyc]) -> Result<Stats, (String, String, us
             }
         }
         h.set_input("trip", c.trip);
+        for (byte, val) in &c.poke {
+            h.runtime_mut().io_mut().outputs_mut()[*byte] = *val;
+            prev_out[*byte] = *val;
+            st.pokes += 1;
+        }
         let expect_idle = tasked && c.dt0 && !c.trip;
         if !expect_idle {
             h.advance_time(Duration::from_millis(1));
@@ -470,6 +480,14 @@ fn gen_cycles(rng: &mut Rng, binds: &[Bind]) -> Vec<Cyc> {
         if rng.chance(1, 3) {
             v[i].inputs = v[i - 1].inputs.clone();
         }
+        // a third of the cycles assign the values of the previous cycle again (output variables that do not change)
+        if rng.chance(1, 3) {
+            v[i].stim_a = v[i - 1].stim_a.clone();
+            v[i].stim_b = v[i - 1].stim_b.clone();
+        }
+        if rng.chance(1, 4) {
+            v[i].poke = (0..1 + rng.usize(3)).map(|_| (rng.usize(IMG), rng.next() as u8)).collect();
+        }
     }
     v
 }
@@ -485,6 +503,7 @@ fn gen_cycles_fresh(rng: &mut Rng, binds: &[Bind]) -> Vec<Cyc> {
             trip: trip_last && i == n - 1,
             dt0: false,
             tasked: false,
+            poke: Vec::new(),
         })
         .collect()
 }
@@ -547,6 +566,7 @@ fn one(sh: &mut Shard, binds: Vec<Bind>, cycles: Vec<Cyc>) {
             sh.count("image_bits_checked", st.bits_checked);
             sh.count("faulted_cycles_checked", st.faulted_cycles);
             sh.count("idle_cycles_checked", st.idle_cycles);
+            sh.count("output_image_bytes_overwritten_between_cycles", st.pokes);
             let has_i = binds.iter().any(|b| b.area == 'I');
             let has_q = binds.iter().any(|b| b.area == 'Q');
             if has_i && has_q {
